@@ -1,67 +1,73 @@
-import MakoModel.ModFile.LemmasHook
-/-! Cores of `rewrite_iff_due` and `after_rewrite_current` with the guard of F-C15-2 in the form
-"the code drops the cached bytecode after a write, or the new file does not collide with the cache key". -/
+import MakoModel.ModFile.LemmasCoh
+/-! Cores of `rewrite_iff_due` and `after_rewrite_current` at a world satisfying the history invariant. -/
 namespace MakoModel.ModFile
 open MakoModel.Generated.ModFile
 
-theorem rewrite_iff_due_core (w0 : World) (h : List HOp) (p : Plan) (hw0 : Good w0.fs) (hh : HistOk h)
-    (hp : p.noFault) (hcoh : PycCoherent (runH w0 h)) (hfresh : dropsBytecode = true ∨ PycFresh (runH w0 h) p) :
-    ((construct defaultWriter (runH w0 h) p).writes ≥ 1 ↔ Due (runH w0 h)) ∧
-    (construct defaultWriter (runH w0 h) p).writes ≤ 1 ∧
-    (¬ Due (runH w0 h) → (construct defaultWriter (runH w0 h) p).world.fs = (runH w0 h).fs ∧
-      (construct defaultWriter (runH w0 h) p).acts = []) := by
-  have hgood := runH_good h w0 hh hw0
-  generalize runH w0 h = w at *
+theorem not_due_cases (w : World) (hd : ¬ isDue w = true) :
+    ∃ f, w.fs .mod = some f ∧ ¬ f.mtime < w.srcMtime := by
+  have hnd : ¬ (w.fs .mod = none ∨ ∃ f, w.fs .mod = some f ∧ f.mtime < w.srcMtime) :=
+    fun h => hd ((isDue_iff w).2 h)
+  cases hf : w.fs .mod with
+  | none => exact absurd (Or.inl hf) hnd
+  | some f => exact ⟨f, rfl, fun h => hnd (Or.inr ⟨f, hf, h⟩)⟩
+
+theorem rewrite_iff_due_at (w : World) (p : Plan) (hinv : Inv w) (hp : p.noFault) :
+    ((construct defaultWriter w p).writes ≥ 1 ↔ Due w) ∧
+    (construct defaultWriter w p).writes ≤ 1 ∧
+    (¬ Due w → (construct defaultWriter w p).world.fs = w.fs ∧ (construct defaultWriter w p).acts = []) := by
+  obtain ⟨hgood, hcoh⟩ := hinv
   by_cases hd : isDue w = true
-  · obtain ⟨h1, _, _⟩ := construct_due w p hp hfresh hd
+  · obtain ⟨h1, _, _⟩ := construct_due w p hp (Or.inl dropsBytecode_on) hd
     have hdue := due_of_isDue w hd
     exact ⟨⟨fun _ => hdue, fun _ => by omega⟩, by omega, fun hn => absurd hdue hn⟩
   · have hd' : isDue w = false := by simpa using hd
-    have hnd : ¬ (w.fs .mod = none ∨ ∃ f, w.fs .mod = some f ∧ f.mtime < w.srcMtime) :=
-      fun h => hd ((isDue_iff w).2 h)
-    cases hf : w.fs .mod with
-    | none => exact absurd (Or.inl hf) hnd
-    | some f =>
-      by_cases hm : f.content.magic = magicNumber
-      · obtain ⟨h1, _, h3, h4⟩ := construct_reuse w p hgood hcoh hd' f hf hm
-        have hnot : ¬ Due w := by
-          intro hdue
-          rcases hdue with h | ⟨f', hf', h⟩
-          · rw [hf] at h; cases h
-          · rw [hf] at hf'; cases hf'
-            rcases h with h | h
-            · exact hnd (Or.inr ⟨f, hf, h⟩)
-            · exact h hm
-        exact ⟨⟨fun h => by omega, fun h => absurd h hnot⟩, by omega, fun _ => ⟨h3, h4⟩⟩
-      · obtain ⟨h1, _, _⟩ := construct_magic w p hp hgood hcoh hfresh hd' f hf hm
-        have hdue : Due w := Or.inr ⟨f, hf, Or.inr hm⟩
-        exact ⟨⟨fun _ => hdue, fun _ => by omega⟩, by omega, fun hn => absurd hdue hn⟩
+    obtain ⟨f, hf, hnlt⟩ := not_due_cases w hd
+    by_cases hm : f.content.magic = magicNumber ∧ f.content.file = w.fileId
+    · obtain ⟨h1, _, h3, h4⟩ := construct_reuse w p hgood hcoh hd' f hf hm.1 hm.2
+      have hnot : ¬ Due w := by
+        intro hdue
+        rcases hdue with h | ⟨f', hf', h⟩
+        · rw [hf] at h; cases h
+        · rw [hf] at hf'; cases hf'
+          rcases h with h | h | h
+          · exact hnlt h
+          · exact h hm.1
+          · exact h hm.2
+      exact ⟨⟨fun h => by omega, fun h => absurd h hnot⟩, by omega, fun _ => ⟨h3, h4⟩⟩
+    · have hm' : f.content.magic ≠ magicNumber ∨ f.content.file ≠ w.fileId := by
+        by_cases h1 : f.content.magic = magicNumber
+        · exact Or.inr (fun h2 => hm ⟨h1, h2⟩)
+        · exact Or.inl h1
+      obtain ⟨h1, _, _⟩ := construct_magic w p hp hgood hcoh (Or.inl dropsBytecode_on) hd' f hf hm'
+      have hdue : Due w := Or.inr ⟨f, hf, Or.inr hm'⟩
+      exact ⟨⟨fun _ => hdue, fun _ => by omega⟩, by omega, fun hn => absurd hdue hn⟩
 
-theorem after_rewrite_current_core (w0 : World) (h : List HOp) (p : Plan) (hw0 : Good w0.fs)
-    (hh : HistOk h) (hp : p.noFault) (hcoh : PycCoherent (runH w0 h)) (hfresh : dropsBytecode = true ∨ PycFresh (runH w0 h) p) :
-    ∃ c t, (construct defaultWriter (runH w0 h) p).res = .served c ∧
-      (construct defaultWriter (runH w0 h) p).world.fs .mod = some ⟨c, t⟩ ∧ c.complete = true ∧
-      (((construct defaultWriter (runH w0 h) p).writes ≥ 1 ∨
-          ∃ f, (runH w0 h).fs .mod = some f ∧ f.content.src = (runH w0 h).srcVer) → c.src = (runH w0 h).srcVer) := by
-  have hgood := runH_good h w0 hh hw0
-  generalize runH w0 h = w at *
+theorem after_rewrite_current_at (w : World) (p : Plan) (hinv : Inv w) (hp : p.noFault) :
+    ∃ c t, (construct defaultWriter w p).res = .served c ∧
+      (construct defaultWriter w p).world.fs .mod = some ⟨c, t⟩ ∧ c.complete = true ∧
+      c.magic = magicNumber ∧ c.file = w.fileId ∧
+      (((construct defaultWriter w p).writes ≥ 1 ∨
+          ∃ f, w.fs .mod = some f ∧ f.content.src = w.srcVer) → c.src = w.srcVer) := by
+  obtain ⟨hgood, hcoh⟩ := hinv
   by_cases hd : isDue w = true
-  · obtain ⟨_, h2, h3⟩ := construct_due w p hp hfresh hd
-    exact ⟨_, _, h2, h3, by simp [newContent], fun _ => by simp [newContent]⟩
+  · obtain ⟨_, h2, h3⟩ := construct_due w p hp (Or.inl dropsBytecode_on) hd
+    exact ⟨_, _, h2, h3, by simp [newContent], by simp [newContent], by simp [newContent],
+      fun _ => by simp [newContent]⟩
   · have hd' : isDue w = false := by simpa using hd
-    have hnd : ¬ (w.fs .mod = none ∨ ∃ f, w.fs .mod = some f ∧ f.mtime < w.srcMtime) :=
-      fun h => hd ((isDue_iff w).2 h)
-    cases hf : w.fs .mod with
-    | none => exact absurd (Or.inl hf) hnd
-    | some f =>
-      by_cases hm : f.content.magic = magicNumber
-      · obtain ⟨h1, h2, h3, _⟩ := construct_reuse w p hgood hcoh hd' f hf hm
-        refine ⟨f.content, f.mtime, h2, by rw [h3, hf], hgood f hf, ?_⟩
-        intro hor
-        rcases hor with hw | ⟨f', hf', hs⟩
-        · omega
-        · cases hf'; exact hs
-      · obtain ⟨_, h2, h3⟩ := construct_magic w p hp hgood hcoh hfresh hd' f hf hm
-        exact ⟨_, _, h2, h3, by simp [newContent], fun _ => by simp [newContent]⟩
+    obtain ⟨f, hf, hnlt⟩ := not_due_cases w hd
+    by_cases hm : f.content.magic = magicNumber ∧ f.content.file = w.fileId
+    · obtain ⟨h1, h2, h3, _⟩ := construct_reuse w p hgood hcoh hd' f hf hm.1 hm.2
+      refine ⟨f.content, f.mtime, h2, by rw [h3, hf], hgood f hf, hm.1, hm.2, ?_⟩
+      intro hor
+      rcases hor with hw | ⟨f', hf', hs⟩
+      · omega
+      · rw [hf] at hf'; cases hf'; exact hs
+    · have hm' : f.content.magic ≠ magicNumber ∨ f.content.file ≠ w.fileId := by
+        by_cases h1 : f.content.magic = magicNumber
+        · exact Or.inr (fun h2 => hm ⟨h1, h2⟩)
+        · exact Or.inl h1
+      obtain ⟨_, h2, h3⟩ := construct_magic w p hp hgood hcoh (Or.inl dropsBytecode_on) hd' f hf hm'
+      exact ⟨_, _, h2, h3, by simp [newContent], by simp [newContent], by simp [newContent],
+        fun _ => by simp [newContent]⟩
 
 end MakoModel.ModFile
